@@ -1,0 +1,6 @@
+//go:build !verif
+
+package repl
+
+// verifCrashPoint is a no-op in normal builds (see verif_crash.go, build tag `verif`).
+func verifCrashPoint(string) {}
